@@ -44,6 +44,13 @@ def generate(rnd, tier, index=0):
     spare2 = [a for a in spare if a not in arms]
     cont = gen.gen_history(rnd, cfg2, spare2, d, regime, rnd.randint(2, 6), warm=True, max_rows=10, refit=0.05)
     cont[0]["op"] = "partial_fit"
+    if rnd.random() < 0.5:
+        # "every later sequence of calls": the continuation starts by asking again about contexts the primary has already
+        # been asked about (the other kind of query), before any training call
+        q = rnd.choice(queries)
+        cont.insert(0, {"op": "expect" if q["op"] == "predict" else "predict", "Q": q["Q"]})
+        if rnd.random() < 0.5:
+            cont.insert(1, {"op": q["op"], "Q": q["Q"]})
     return {"cfg": cfg, "regime": regime, "ops": hist, "queries": queries, "cont": cont}
 
 
